@@ -993,17 +993,44 @@ impl<T: Serialize + for<'de> Deserialize<'de> + Clone + PartialEq + Send + Sync 
 
         let mut entries_recovered = 0u64;
         let mut buffer = Vec::new();
+        let file_len = file.metadata().map(|m| m.len()).unwrap_or(0);
 
         loop {
             // Read entry size
+            let record_start = file.stream_position().unwrap_or(0);
             let mut size_bytes = [0u8; 4];
             match file.read_exact(&mut size_bytes) {
                 Ok(()) => {}
-                Err(e) if e.kind() == std::io::ErrorKind::UnexpectedEof => break,
+                Err(e) if e.kind() == std::io::ErrorKind::UnexpectedEof => {
+                    // A trailing fragment shorter than a size prefix is a torn write too
+                    if record_start < file_len {
+                        stats.corruption_events.push(CorruptionEvent {
+                            file_path: path.to_path_buf(),
+                            corruption_type: CorruptionType::IncompleteWrite,
+                            offset: record_start,
+                            recovery_action: RecoveryAction::Skipped,
+                        });
+                        stats.entries_failed += 1;
+                    }
+                    break;
+                }
                 Err(e) => return Err(P2PError::Io(e)),
             }
 
             let entry_size = u32::from_le_bytes(size_bytes) as usize;
+
+            // A record cannot be longer than what is left of the file: never size the buffer
+            // from an unchecked length prefix
+            if entry_size as u64 > file_len.saturating_sub(record_start + 4) {
+                stats.corruption_events.push(CorruptionEvent {
+                    file_path: path.to_path_buf(),
+                    corruption_type: CorruptionType::IncompleteWrite,
+                    offset: record_start,
+                    recovery_action: RecoveryAction::Skipped,
+                });
+                stats.entries_failed += 1;
+                break;
+            }
 
             // Read entry data
             buffer.resize(entry_size, 0);
